@@ -296,8 +296,8 @@ def run_c01(ctx, sub, cases, rule, prefixes):
         cases = corpus(prefixes) + spread(ctx, cases)
     impl, st = vlib.run_sharded(exe, cases, env={"ASAN_OPTIONS": "detect_leaks=1:abort_on_error=0"})
     vlib.sanitizer_reports(ctx, sub, st)
-    model, _ = vlib.run_sharded(mexe, cases, timeout=1500)
-    spec, _ = vlib.run_sharded(mexe, ["spec " + c for c in cases], timeout=1500)
+    model, _ = vlib.run_sharded(mexe, cases, timeout=5400)
+    spec, _ = vlib.run_sharded(mexe, ["spec " + c for c in cases], timeout=5400)
     impl_d, model_d, spec_d = strip_flag(impl), strip_flag(model), strip_flag(spec)
     vlib.tri_compare(ctx, sub, cases, impl_d, model_d, spec_d)
     ctx.record(sub, cases, set(zip((c[:200] for c in cases), impl_d)), rule,
